@@ -192,15 +192,14 @@ def metadata(s, tmp):
 def check_meta(res, case, s, snap, meta):
     names = set(snap["plate_names"])
     n_un = n_unobserved(snap)
-    want = {"n_unobserved_plates": n_un, "n_observed_plates": len(names) - n_un, "n_plates": len(names),
-            "size": len(snap["plate_names"])}
+    want = {"n_unobserved_plates": n_un}           # the counter the text speaks of; the others are compared through the stage string
     got = {k: meta.get(k) for k in want}
     if got != want:
         res.fail("screen_metadata.json counters differ from a recount of the screen", case, got, want, signature=SIG_META)
         return False
     un, ob = unobserved_counts(s)
-    if (un, ob, int(s.n_plates)) != (want["n_unobserved_plates"], want["n_observed_plates"], want["n_plates"]):
-        res.fail("in-memory plate counters differ from a recount of the screen", case, [un, ob, int(s.n_plates)], want, signature=SIG_META)
+    if un != want["n_unobserved_plates"]:
+        res.fail("the in-memory count of unobserved plates differs from a recount of the screen", case, un, want, signature=SIG_META)
         return False
     return True
 
@@ -415,13 +414,12 @@ def judge_reveal(res, case, before, ids, after, exc, via):
     req = set(ids) & existing
     sel = [p in req for p in before["plate_ids"]]
     vals = [b for b, t in zip(before["observations"], sel) if t]
-    all_zero = all(is_zero_bits(b) for b in vals)
+    # the text: "revealing refuses plates whose stored values are all zero or contain NaN".  HOW it refuses (the error class) and
+    # what happens to a request that names no plate of the screen (refusal or nothing revealed) is not stated: tie only
+    all_zero = bool(vals) and all(is_zero_bits(b) for b in vals)
     has_nan = any(is_nan_bits(b) for b in vals)
     if exc is not None:
-        if not isinstance(exc, ValueError):
-            res.fail("%s raises something other than ValueError" % via, case, "%s: %s" % (type(exc).__name__, exc),
-                     "ValueError for all-zero / NaN plates, success otherwise", signature=SIG_RAISES)
-        elif not (all_zero or has_nan):
+        if vals and not (all_zero or has_nan):
             res.fail("%s refuses plates whose stored values are neither all zero nor contain NaN" % via, case,
                      "%s: %s" % (type(exc).__name__, exc), {"requested": sorted(ids), "values_bits": vals[:20]}, signature=SIG_REFUSE)
         return None
@@ -803,9 +801,7 @@ def run_ctor_case(case, res):
     except Exception as e:
         out = S.err_tok(e)
         if mode in ("mixed", "mask-noobs"):
-            if not isinstance(e, ValueError):
-                res.fail("constructor raises something other than ValueError (%s)" % mode, case, "%s: %s" % (type(e).__name__, e),
-                         "ValueError", signature=SIG_RAISES)
+            pass                        # rejected; the error class is compared with the model only
         else:
             res.fail("constructor rejects a valid screen (%s)" % mode, case, "%s: %s" % (type(e).__name__, e), "a screen", signature=SIG_CTOR)
         return out
@@ -815,20 +811,19 @@ def run_ctor_case(case, res):
     if mode == "mixed":
         res.fail("constructor accepts a plate with mixed observation status", case, {"mask": mask}, "ValueError", signature=SIG_CTOR_MIXED)
     elif mode == "mask-noobs":
-        res.fail("constructor accepts a mask without observations", case, {"mask": mask}, "ValueError", signature=SIG_CTOR)
+        pass                            # not in the property's text: compared with the model only
     elif mode == "obs-nomask":
         if mask != [True] * n or obs != case["obs_bits"]:
             res.fail("observations without a mask are not all observed / not stored as given", case, {"mask": mask, "obs": obs},
                      {"mask": [True] * n, "obs": case["obs_bits"]}, signature=SIG_CTOR)
     elif mode == "noobs":
-        if mask != [False] * n or obs != [0] * n:
-            res.fail("a screen without observations is not all unobserved with zeros stored", case, {"mask": mask, "obs": obs},
-                     {"mask": [False] * n, "obs": [0] * n}, signature=SIG_CTOR)
+        if mask != [False] * n:         # which placeholder values are stored is compared with the model only
+            res.fail("a screen without observations is not all unobserved", case, {"mask": mask}, {"mask": [False] * n}, signature=SIG_CTOR)
     else:
         if mask != raw["mask"] or obs != case["obs_bits"]:
             res.fail("constructor changes a valid mask / the observations", case, {"mask": mask, "obs": obs},
                      {"mask": raw["mask"], "obs": case["obs_bits"]}, signature=SIG_CTOR)
-    if mode != "mixed":
+    if mode not in ("mixed", "mask-noobs"):
         check_uniform(res, case, observables(s), "after construction")
     return out
 
@@ -907,7 +902,6 @@ def run_combine_case(case, res):
     from batchie.data import Screen
     raws = combine_parts(case)
     objs = [S.build(r) for r in raws]
-    snaps = [observables(o) for o in objs]
     exc = new = None
     try:
         if case["via"] == "combine":
@@ -916,47 +910,15 @@ def run_combine_case(case, res):
             new = Screen.concat(list(objs))
     except Exception as e:
         exc = e
-    for o, sn in zip(objs, snaps):
-        check_input(res, case, o, sn, "Screen.%s" % case["via"])
-    pn = [p for sn in snaps for p in sn["plate_names"]]
-    mk = [m for sn in snaps for m in sn["observation_mask"]]
-    ob = [b for sn in snaps for b in sn["observations"]]
-    # judged pairwise along the left fold, as the text says: no step may produce a partly observed plate
-    mixed = any(any(v) and not all(v) for v in groups(pn, mk).values())
-    bad_args = len(set(r["ctrl"] for r in raws)) > 1 or len(set(r["arity"] for r in raws)) > 1
+    # Screen.combine / concat are outside the property's quantifier (histories of mask / unmask / reveal / save / load).  The one
+    # thing its text demands of them is what it demands of every construction: the screen they return has no partly observed
+    # plate (the union of an observed and a masked part of one plate must not come back as a screen).  Which error is raised,
+    # row order, refusals for other reasons, object identity: compared with the MODEL only (tie).
     if exc is not None:
-        out = S.err_tok(exc)
-        if not isinstance(exc, ValueError):
-            res.fail("Screen.%s raises something other than ValueError" % case["via"], case, "%s: %s" % (type(exc).__name__, exc),
-                     "ValueError or the combined screen", signature=SIG_RAISES)
-        elif not (mixed or bad_args):
-            res.fail("Screen.%s refuses screens whose union has no partly observed plate" % case["via"], case,
-                     "%s: %s" % (type(exc).__name__, exc), {"plate_names": pn, "mask": mk}, signature=SIG_COMBINE)
-        return out
+        return S.err_tok(exc)
     after = observables(new)
-    out = show_stage(new)
-    if len(objs) == 1:
-        if new is not objs[0]:
-            res.fail("Screen.concat of one screen does not return that screen", case, "another object", "the screen", signature=SIG_COMBINE)
-        return out
-    if mixed and not bad_args:
-        res.fail("Screen.%s of an observed and an unobserved part of the same plate returns a screen" % case["via"], case,
-                 {"plate_names": after["plate_names"], "mask": after["observation_mask"]}, "ValueError", signature=SIG_CTOR_MIXED)
-        return out
-    if bad_args:
-        res.fail("Screen.%s accepts screens with different control names / arities" % case["via"], case, "a screen", "ValueError",
-                 signature=SIG_COMBINE)
-        return out
-    check_uniform(res, case, after, "after Screen.%s" % case["via"])
-    want = {"plate_names": pn, "observation_mask": mk, "observations": ob,
-            "sample_names": [x for sn in snaps for x in sn["sample_names"]],
-            "treatment_names": [x for sn in snaps for x in sn["treatment_names"]],
-            "treatment_doses": [x for sn in snaps for x in sn["treatment_doses"]]}
-    for f, v in want.items():
-        if after[f] != v:
-            res.fail("Screen.%s changes the %s of its rows" % (case["via"], f), case, {f: after[f]}, {f: v}, signature=SIG_COMBINE)
-            break
-    return out
+    check_uniform(res, case, after, "after Screen.%s (a plate has an observed part in one screen and an unobserved part in another)" % case["via"])
+    return show_stage(new)
 
 
 def combine_line(case):
@@ -996,43 +958,33 @@ def gen_setobs_case(rng, n_max):
 
 
 def run_setobs_case(case, res):
+    """The ORACLE speaks only about well-formed calls -- a boolean selection of the screen's length and exactly one value per
+    selected row (what the text says: "directly marking a selection observed stores exactly the given values at exactly those
+    rows").  For malformed calls (selection of another length incl. 0, another number of values incl. a single broadcast value)
+    whatever the implementation does -- which error, or numpy's incidental acceptance -- is compared with the MODEL only (tie)."""
     raw = raw_with_bits(case)
     sel, vals = [bool(b) for b in case["sel"]], [int(b) for b in case["val_bits"]]
     s = S.build(raw)                    # set_observed mutates: a fresh screen per case
     before = observables(s)
     n = len(before["observations"])
     k = sum(sel)
-    if len(sel) not in (n, 0):
-        want = "err:IndexError"
-    elif len(vals) not in (k, 1):
-        want = "err:ValueError"
-    else:
-        want = "ok"
+    well_formed = len(sel) == n and len(vals) == k
     exc = None
     try:
         s.set_observed(np.array(sel, dtype=bool), np.array([S.from_bits(b) for b in vals], dtype=float))
     except Exception as e:
         exc = e
-    after = observables(s)
+    out = S.err_tok(exc) if exc is not None else show_stage(s)
+    if not well_formed:
+        return out                      # tie only
     if exc is not None:
-        out = S.err_tok(exc)
-        if out != want:
-            res.fail("set_observed raises although selection and values fit (or raises the wrong error)", case,
-                     "%s: %s" % (type(exc).__name__, exc), want, signature=SIG_SETOBS)
-        elif after != before:
-            d = first_diff(before, after)
-            res.fail("a failing set_observed changes the screen", case, {"field": d[0], "after": d[2]}, {"field": d[0], "before": d[1]},
-                     signature=SIG_SETOBS)
+        res.fail("set_observed raises although the selection has the screen's length and there is one value per selected row", case,
+                 "%s: %s" % (type(exc).__name__, exc), "the values stored at the selected rows", signature=SIG_SETOBS)
         return out
-    out = show_stage(s)
-    if want != "ok":
-        res.fail("set_observed accepts a selection / values of the wrong length", case, "no error", want, signature=SIG_SETOBS)
-        return out
-    use = vals if len(vals) == k else vals * k
-    it = iter(use)
-    full = sel if len(sel) == n else [False] * n
-    exp_obs = [next(it) if t else b for b, t in zip(before["observations"], full)]
-    exp_mask = [m or t for m, t in zip(before["observation_mask"], full)]
+    after = observables(s)
+    it = iter(vals)
+    exp_obs = [next(it) if t else b for b, t in zip(before["observations"], sel)]
+    exp_mask = [m or t for m, t in zip(before["observation_mask"], sel)]
     if after["observations"] != exp_obs:
         res.fail("set_observed does not store exactly the given values at exactly the selected rows", case,
                  {"observations": after["observations"]}, {"observations": exp_obs, "selection": sel, "values": vals}, signature=SIG_SETOBS)
@@ -1048,12 +1000,6 @@ def run_setobs_case(case, res):
                 res.fail("set_observed changes something other than observations and mask", case, {"field": f, "after": after[f]},
                          {"field": f, "before": before[f]}, signature=SIG_SETOBS)
                 break
-        # set_observed may leave plates partly observed: such a plate counts as unobserved
-        un, ob = unobserved_counts(s)
-        want_un = n_unobserved(after)
-        if (un, ob) != (want_un, len(set(after["plate_names"])) - want_un):
-            res.fail("in-memory plate counters differ from a recount of the screen", case, [un, ob],
-                     [want_un, len(set(after["plate_names"])) - want_un], signature=SIG_META)
     return out
 
 
